@@ -13,9 +13,13 @@
    implementation raises (bucket level: the exception type is not modelled).
 
    Deviations that are deliberate and documented:
-   * where the implementation defers a failure (a short but item-aligned LINB / VTYP / INDX payload
-     is accepted by np.frombuffer and the next section read then fails on the exhausted file, or the
-     raw loop reads out of bounds) the model fails at once;
+   * since 89f7dc3 the raw loaders (_ivartypes_load, _ivarinfo_load, _iindices_load, _ilinear_load,
+     _iquadratic_load) raise ValueError when np.frombuffer yields fewer records than declared, i.e. at
+     exactly the point where `pd_chunks` returns None here.  One deferral remains: the LINB section
+     of a QM file - LinearSection.loads_data accepts a short but item-aligned payload and
+     add_linear_from_array accepts the shorter array; the failure then surfaces at the next section
+     read (a NEIG section always follows when there is at least one variable, and the file is
+     exhausted).  The model fails at once there: same bucket for every truncated file;
    * JSON is parsed rigidly: exactly the text `json.dumps(..., sort_keys=True)` produces, followed
      by whitespace.  This is faithful on every file the implementation writes and on every prefix
      of such a file, which is the domain of C09 / C10.
